@@ -224,7 +224,7 @@ def run(rep: common.Report, tier: str, seed: int, replay=None) -> int:
     sizes = [12, 30, 60, 120] if tier == "quick" else [12, 30, 60, 120, 250, 400, 400, 250]
     for i, n in enumerate(sizes):
         for kind in ("random", "jitter", "grid"):
-            specs.append(("delaunay", n, kind, 2 if (i % 2) else 0))
+            specs.append(("delaunay", n, kind, 2 if (i % 2) else 0, [1.0, 1.0, 1e-5, 2e3][(i + len(specs)) % 4]))
     ndev = 3 if tier == "quick" else 10
     for k in range(ndev):
         specs.append(("device", k % 3, rng.choice([2, 3, 4]), rng.choice([0, 2])))
@@ -232,7 +232,7 @@ def run(rep: common.Report, tier: str, seed: int, replay=None) -> int:
     wtexts, wcases = [], []
     for mi, spec in enumerate(specs):
         if spec[0] == "delaunay":
-            mesh = meshes.delaunay_mesh(rng, spec[1], spec[2], smooth=spec[3])
+            mesh = meshes.delaunay_mesh(rng, spec[1], spec[2], smooth=spec[3], scale=spec[4])
         else:
             dev = meshes.make_device(rng, holes=spec[1], terminals=spec[2], smooth=spec[3],
                                      max_edge_length=rng.choice([0.5, 0.8]),
